@@ -172,7 +172,8 @@ class C12(Prop):
                     if j == jt:
                         return style % (10 + i)
                     return "%.4f" % (i * 0.5 if j == 0 else (i * 10 + j) * (-1.25 if neg else 1.25))
-            doc = docmodel.std_doc(g, custom=g.choice([0, 0, 1]), wrap=g.random() < 0.2 and cell is None, ncurves=ncur, cell=cell)
+            doc = docmodel.std_doc(g, custom=g.choice([0, 0, 1]), wrap=g.random() < 0.2 and cell is None, ncurves=ncur, cell=cell,
+                                   vers=1.0 if g.random() < 0.06 else None)      # LAS 1.0 shares the 1.2 ~Well layout
             if not doc["wrap"] and g.random() < 0.12:
                 for sec in doc["sections"]:
                     if sec["kind"] == "V":
